@@ -1373,7 +1373,7 @@ def run_damage(run, vsim, d, quick, model=None):
                     run.mismatch("binary-reader-tie", {"cut": cut, "of": n, "hill_starts": hill_starts[:3]}, verdict, mo.strip())
             stats["binary_reader_model_cases"] = len(lines)
             stats["binary_reader_model_disagreements"] = ndis
-        flips = [(r.randrange(n), r.randrange(8)) for j in range(60 if quick else 800)]
+        flips = [(r.randrange(n), r.randrange(8)) for j in range(60 if quick else 600)]
         if nm == "text":
             # aimed: every byte of the configuration block (step, dt, version, units and the separators)
             a0 = data.find(b"{"); b0 = data.find(b"}")
